@@ -32,7 +32,7 @@ from ..core import Ctx, ExtractError
 
 ID = "C09"
 LEVEL = "proof"
-STRENGTH = "partial"     # no clause is negated any more (F10, F13 repaired); "never crashes" and the staged upper bounds of the cycle-driven stops (deletion mark, mismatch) rest on oracle/tie
+STRENGTH = "partial"     # F10, F13 repaired; NEGATED for the current tree (open findings F14, F15): the stages after a mismatch / the start once the object matches again while the flagged instance is still there; "never crashes" and the staged upper bounds of the cycle-driven stops (deletion mark, mismatch) rest on oracle/tie
 ENGINES = ["lean-model", "pyextract", "kopfsim"]
 TIE = ("T: stage chain of stop_daemons + phase list of stop_daemon (AST → Lean, re-proved equal to the model); "
        "S: every process_spawning_cause pass and every daemon-killer stop_daemon run of whole-operator simulations "
@@ -53,7 +53,14 @@ LEVEL_TEXT = (
     "`daemon_progress` (_daemon, <= 3 steps) for the micro-step models of the tree as it is (idle loop guarded by the stopper since "
     "6ccf081, `await asyncio.sleep(0)` at the top of both retry loops since b04c26c; both variants tied to the AST), from every "
     "program point, environment and stream of handler outcomes — a run may or may not yield to the loop and may be retried with any "
-    "delay incl. 0. Historical negations kept as regressions' model side: `nonyielding_retry_spins(+_witness)`, "
+    "delay incl. 0. 'The stop flag is obeyed by the wrapper': stopped_timer_returns / stopped_daemon_returns — wherever `_timer` / "
+    "`_daemon` is when its stopper is set (initial delay, idle wait, interval / retry sleep, after-run idle loop; not inside the call "
+    "itself) it RETURNS within 4 / 3 micro-steps without suspending and WITHOUT calling the function again (ties: every "
+    "`aiotime.sleep` of both has the stopper as wake-up event; the re-check after the idle wait). NEGATED for the current tree "
+    "(open findings F14, F15, replayed by corpus/C09/F14.json, F15.json): rematched_not_escalated (a cycle of a matching, unmarked "
+    "object changes nothing and returns no delay, whatever stage a flagged instance is in: after a mismatch followed by a re-match "
+    "nobody cancels / abandons / replaces it: rematch_witness) and only_cycles_spawn + deferred_start_witness (a start skipped "
+    "because the stopping instance was still there is not made up for when it ends). Historical negations kept as regressions' model side: `nonyielding_retry_spins(+_witness)`, "
     "`daemon_nonyielding_retry_spins` (F12, code before b04c26c), `idle_only_spins(+_witness)` (F1, code "
     "before 6ccf081); the corpus cases F1/F12*.json are passing regressions. 'Never crashes' has NO theorem: oracle on every history (no exception out of the "
     "killer / processing / operator, operator alive) + tie `killer_iterates_snapshots` + corpus regressions (F11 fixed by 06bf1c1). "
@@ -81,25 +88,33 @@ THEOREMS = [("Kopf.Props.C09", "Kopf.C09." + n) for n in [
     "stopped_when_object_disappears", "gone_at_deleted_event", "nothing_spawned_for_gone_object",
     "respawned_while_exiting", "exit_respawn_witness",
     "gone_unmarked_not_stopped", "orphan_never_stopped", "gone_unmarked_witness",
-    "progress", "daemon_progress",
+    "progress", "daemon_progress", "stopped_timer_returns", "stopped_daemon_returns",
+    "rematched_not_escalated", "only_cycles_spawn", "rematch_witness", "deferred_start_witness",
     "nonyielding_retry_spins", "nonyielding_retry_witness", "daemon_nonyielding_retry_spins",
     "idle_only_spins", "idle_only_spins_witness"]]
 TIE_THEOREMS = [("Kopf.Tie.C09", "Kopf.C09.Tie." + n) for n in ["stage_eq", "killer_phases_eq", "timers_force_none",
                                                                          "timer_loop_guarded", "killer_iterates_snapshots",
                                                                          "sweep_unconditional", "killer_period_eq",
                                                                          "loops_yield_each_iteration", "timer_failure_is_forever",
-                                                                         "stops_gone", "marks_exiting"]]
+                                                                         "stops_gone", "marks_exiting",
+                                                                         "sleeps_wake_on_stop", "timer_rechecks_stop_after_idle"]]
 RULE = ("seeded whole-operator histories: 1-2 objects, 1-3 daemons/timers (modes obey/cancel/ignore/exit; cancellation_backoff/"
         "timeout in {None,0,small,large}; timers with interval/idle/both/neither, sharp, initial_delay), optional label filter and "
         "change handler, timeline of label toggles, spec edits, graceful deletion, deletion before the finalizer lands, forced "
         "finalizer removal + deletion, pause/resume (incl. the #1266 interleaving: an event processed while already paused), graceful "
-        "restarts and kills at dyadic times, async handlers that never await (retried with delay 0 / None / positive); one case = one "
+        "restarts and kills at dyadic times, async handlers that never await (retried with delay 0 / None / positive); flavours: "
+        "'asleep' (the stop arrives while the wrapper sleeps: timer idle wait / interval / initial delay / retry delay, daemon initial "
+        "delay / retry delay; through deletion, forced disappearance, mismatch, pause, exit), 'rematch' (mismatch with the object staying "
+        "mismatching through all stages, or matching again inside / after them), 'exit-flagged' (exit while a daemon is in an early stage "
+        "of another stop), 8% of all histories with settings.background.instant_exit_timeout set (oracle only); one case = one "
         "process_spawning_cause pass or one daemon-killer stop_daemon run; distinct & non-trivial = distinct abstracted "
         "(inputs, pre-state shape, stage taken) tuples in which something is spawned, flagged, cancelled, abandoned or ended")
 TRUSTED = ["harness/sim (virtual-time loop, fake API server) + the local instrumentation in harness/props/c09.py",
            "pyextract atom vocabulary for daemons.stop_daemons / stop_daemon",
-           "the oracle's reading of 'matches' (label equality/presence filters only) and its reaction allowance of 1 s virtual time"]
-ASSUMPTIONS = ["settings.background.instant_exit_timeout is None (the default): no time passes inside one stop_daemons call",
+           "the oracle's reading of 'matches' (label equality/presence filters only) and its reaction allowance of 1 s virtual time "
+           "(0.25 s for an instance none of whose user code runs to end on its flag)"]
+ASSUMPTIONS = ["settings.background.instant_exit_timeout is None (the default): no time passes inside one stop_daemons call "
+               "(model and tie; histories with a small instant_exit_timeout are generated and judged by the oracle alone)",
                "async daemons/timers only (sync ones run in real threads: outside the model)",
                "CPython >= 3.12 semantics of asyncio.wait_for (an already-set event does not suspend): on 3.10/3.11 the F1 loop "
                "burns CPU but yields to the loop",
@@ -121,6 +136,10 @@ F11_SIG = {"site": "daemons.daemon_killer",
            "shape": "RuntimeError: the killer iterates running_daemons across awaits while exiting daemons remove themselves"}
 F10_SIG = {"site": "processing.process_spawning_cause",
            "shape": "DELETED event without deletionTimestamp: running daemons/timers are never asked to stop"}
+F14_SIG = {"site": "daemons.match_daemons",
+           "shape": "a daemon asked to stop for a filter mismatch is not taken through the stages once the object matches again"}
+F15_SIG = {"site": "daemons.spawn_daemons",
+           "shape": "a start deferred because the previous instance was still stopping is never made up for"}
 RUNNER = "harness.props.c09:run_scenario"
 PRIMARY = ["FILTERS_MISMATCH", "RESOURCE_DELETED", "OPERATOR_PAUSING", "OPERATOR_EXITING"]
 R2L = {"DONE": "done", "FILTERS_MISMATCH": "mismatch", "RESOURCE_DELETED": "deleted", "OPERATOR_PAUSING": "pausing",
@@ -129,6 +148,7 @@ R2L = {"DONE": "done", "FILTERS_MISMATCH": "mismatch", "RESOURCE_DELETED": "dele
 KILLER_PERIOD = 1.0     # `asyncio.timeout(1.0)` between two rounds of the daemon killer while paused
 DELTA_START = 2.0      # … and to start up (discovery + first listing)
 DELTA = 1.0            # virtual seconds the operator is given to react to an event (measured: a few 1/64 s)
+DELTA_END = 0.25       # … and an instance whose wrapper alone has to obey the flag to end (measured: the same instant)
 SPIN_LIMIT = 20000
 CALL_SPIN_LIMIT = 800
 
@@ -157,6 +177,7 @@ class Recorder:
         self.ev: list[dict] = []
         self.calls: list[dict] = []
         self.by_stopper: dict[int, dict] = {}
+        self.by_event: dict[int, dict] = {}     # id(stopper.async_event) -> the same records
         self.keep: list[Any] = []          # keeps stoppers alive so that id() stays unique
         self.n_sid = 0
         self.n_cyc = 0
@@ -226,8 +247,11 @@ class Recorder:
     def _call_rec(self, h: dict, kwargs: dict) -> dict:
         from ..sim import runner
         meta = (kwargs.get("body") or {}).get("metadata", {})
+        srec = self.by_stopper.get(id(getattr(kwargs.get("stopped"), "_setter", None)))
         rec = {"t": self.sim.now(), "inc": runner._incarnation.get(), "id": h["id"], "kind": h["kind"],
-               "uid": meta.get("uid"), "name": meta.get("name"), "t_end": None, "outcome": None}
+               "uid": meta.get("uid"), "name": meta.get("name"), "t_end": None, "outcome": None,
+               "seq": len(self.ev), "sid": srec["sid"] if srec else None,
+               "flag_at_entry": bool(kwargs.get("stopped")) if "stopped" in kwargs else None}
         self.calls.append(rec)
         return rec
 
@@ -342,6 +366,9 @@ class TaskProxy:
     def __getattr__(self, name: str) -> Any:
         return getattr(self._t, name)
 
+    def __await__(self) -> Any:       # `await daemon.task` / `asyncio.wait_for(daemon.task, …)` work as on the task itself
+        return self._t.__await__()
+
     def __repr__(self) -> str:
         return f"<TaskProxy of {self._t!r}>"
 
@@ -389,6 +416,7 @@ def instrumented(sim: Any, R: Recorder) -> Iterator[None]:
         ctxinfo = R.spawn_ctx or {}
         rec = {"sid": R.n_sid, "hid": str(kw["handler"].id), "uid": ctxinfo.get("uid"), "stopper": kw["stopper"]}
         R.by_stopper[id(kw["stopper"])] = rec
+        R.by_event[id(kw["stopper"].async_event)] = rec
         R.keep.append(kw["stopper"])
         kw["task"] = TaskProxy(kw["task"], rec, R)
         R.log("spawn", sid=rec["sid"], hid=rec["hid"], uid=rec["uid"], cyc=ctxinfo.get("cyc"))
@@ -520,6 +548,12 @@ def instrumented(sim: Any, R: Recorder) -> Iterator[None]:
         loop = asyncio.get_running_loop()
         it0 = getattr(loop, "iterations", None)
         out = await o_sleep(delays, wakeup)
+        wrec = R.by_event.get(id(wakeup)) if wakeup is not None else None
+        if wrec is not None and wakeup.is_set() and not wrec.get("woken"):
+            # a sleep of the instance's own wrapper (`_daemon` / `_timer`) has returned with the stop flag set: from now
+            # on the wrapper KNOWS that it was asked to stop
+            wrec["woken"] = True
+            R.log("woken", sid=wrec["sid"], site=sys._getframe(1).f_code.co_name)
         if it0 is not None and loop.iterations == it0:          # returned without giving control to the loop
             if spin["iter"] == it0:
                 spin["n"] += 1
@@ -822,11 +856,177 @@ def gen_exit_depletion_scenario(rng: Any, seed: int) -> dict:
             "flavour": "exit-depletion"}
 
 
+def gen_asleep_scenario(rng: Any, seed: int) -> dict:
+    """The instance is asked to stop while its own wrapper sleeps: a timer waiting for the object to become idle, between
+    two runs, in its initial delay or between two retries; a daemon in its initial delay or between two retries. The stop
+    comes through every channel (deletion mark, forced disappearance, mismatch, pause, exit) at a moment strictly inside
+    the sleep. Nothing of the user's code runs then: the wrapper alone has to obey the flag — return at once, and not
+    call the function again."""
+    handlers: list[dict] = []
+    naps: list[float] = []           # how long the longest sleeps are
+    for k in range(rng.choice([1, 1, 2])):
+        opts: dict[str, Any] = {}
+        if rng.random() < 0.4:
+            opts["labels"] = {"on": "1"}
+        kind = rng.choice(["idle", "idle", "both", "interval", "timer-delay", "timer-retry", "daemon-delay", "daemon-delay", "daemon-retry"])
+        if kind in ("idle", "both", "interval", "timer-delay", "timer-retry"):
+            nap = rng.choice([2.0, 3.0, 5.0])
+            if kind in ("idle", "both"):
+                opts["idle"] = nap
+            if kind in ("both", "interval", "timer-delay", "timer-retry"):
+                opts["interval"] = nap if kind == "interval" else rng.choice([1.0, 2.5])
+            if kind == "timer-delay":
+                opts["initial_delay"] = nap
+            h: dict[str, Any] = {"kind": "timer", "id": f"t{k}", "opts": opts,
+                                 "tcfg": {"idle": "idle", "both": "both"}.get(kind, "interval")}
+            if kind == "timer-retry":
+                h["default"] = ["temp", nap]
+                if rng.random() < 0.5:
+                    h["noawait"] = True
+        else:
+            nap = rng.choice([2.0, 4.0, 6.0])
+            if rng.random() < 0.4:
+                opts["cancellation_timeout"] = rng.choice([0.5, 8.0])
+            if rng.random() < 0.3:
+                opts["cancellation_backoff"] = rng.choice([0.5, 6.0])
+            if kind == "daemon-delay":
+                opts["initial_delay"] = nap
+                h = {"kind": "daemon", "id": f"d{k}", "opts": opts,
+                     "daemon": {"mode": rng.choice(["obey", "cancel", "exit"]), "after": 2.0}}
+            else:
+                h = {"kind": "daemon", "id": f"d{k}", "opts": opts, "daemon": {"mode": "retry", "delay": nap}}
+        naps.append(nap)
+        handlers.append(h)
+    if rng.random() < 0.3:
+        handlers.append({"kind": "create", "id": "c1"})
+    t = 1.0
+    tl: list[list] = [[t, "create", "a", {"spec": {"x": 0}, "metadata": {"labels": {"on": "1"}}}]]
+    nap = max(naps)
+    for n in range(rng.choice([1, 1, 2])):
+        # strictly inside a sleep that began at (or a little after) the previous point of the timeline
+        t += rng.choice([0.25, 0.5, 1.0, nap / 2, nap - 0.5])
+        how = rng.choice(["delete", "force", "label", "label", "pause", "stop", "spec+delete"])
+        if how == "delete":
+            tl.append([t, "delete", "a"])
+            break
+        if how == "force":
+            tl.append([t, "force_delete", "a"])
+            break
+        if how == "spec+delete":      # an essential change restarts the idling; then the mark
+            tl.append([t, "edit", "a", {"spec": {"x": n + 1}}])
+            t += rng.choice([0.5, 1.0])
+            tl.append([t, "delete", "a"])
+            break
+        if how == "label":
+            tl.append([t, "edit", "a", {"metadata": {"labels": {"on": "0"}}}])
+            t += rng.choice([2.0, 4.0])
+            tl.append([t, "edit", "a", {"metadata": {"labels": {"on": "1"}}}])
+        elif how == "pause":
+            tl.append([t, "pause"])
+            t += rng.choice([2.0, 4.0])
+            tl.append([t, "resume"])
+        else:
+            tl.append([t, "stop"])
+            t += rng.choice([2.0, 8.0])
+            tl.append([t, "start"])
+    return {"runner": RUNNER, "seed": seed, "handlers": handlers, "timeline": tl, "end": t + nap + rng.choice([2.0, 4.0]),
+            "settings": {}, "flavour": "asleep"}
+
+
+def gen_rematch_scenario(rng: Any, seed: int) -> dict:
+    """Staged termination after a filter mismatch: 1-2 daemons that do not exit on the flag alone (or exit late), with a
+    cancellation timeout; the object stays mismatching through all the stages (with foreign edits inside the windows,
+    as in the deletion flavour), or matches again while the instance is still stopping, or after it has ended."""
+    handlers: list[dict] = []
+    for k in range(rng.choice([1, 1, 2])):
+        b, tmo = rng.choice([None, 0, 0.5, 1.0, 1.5]), rng.choice([None, 0.5, 1.0, 2.0, 2.0])
+        opts: dict[str, Any] = {"labels": {"on": "1"}}
+        if tmo is not None:
+            opts["cancellation_timeout"] = tmo
+        if b is not None:
+            opts["cancellation_backoff"] = b
+        mode = rng.choice(["ignore", "cancel", "cancel", "exit"])
+        handlers.append({"kind": "daemon", "id": f"d{k}", "opts": opts,
+                         "daemon": {"mode": mode, "after": rng.choice([2.5, 3.0, 4.5])}})
+    if rng.random() < 0.3:
+        handlers.append({"kind": "daemon", "id": "d9", "opts": {}, "daemon": {"mode": "obey"}})     # keeps the finalizer on
+    if rng.random() < 0.3:
+        handlers.append({"kind": "create", "id": "c1"})
+    b0 = float(handlers[0]["opts"].get("cancellation_backoff") or 0)
+    t0 = float(handlers[0]["opts"].get("cancellation_timeout") or 0)
+    t = 1.0
+    tl: list[list] = [[t, "create", "a", {"spec": {"x": 0}, "metadata": {"labels": {"on": "1"}}}]]
+    t += rng.choice([1.0, 2.0])
+    tl.append([t, "edit", "a", {"metadata": {"labels": {"on": rng.choice(["0", None])}}}])
+    plan = rng.choice(["stay", "stay", "rematch-inside", "rematch-inside", "rematch-after"])
+    if plan == "stay":
+        offs = sorted({rng.choice([b0 / 2, b0, b0 + 1.0 / 64, b0 + t0 / 2, b0 + t0 - 1.0 / 64, b0 + t0 + 0.5])
+                       for _ in range(rng.choice([0, 1, 2]))})
+        for n, off in enumerate(offs):
+            off = round(off * 64) / 64
+            if off > 0:
+                tl.append([t + off, "edit", "a", rng.choice([{"spec": {"x": n + 1}}, {"metadata": {"labels": {"poke": str(n)}}}])])
+        t += b0 + t0
+    elif plan == "rematch-inside":
+        off = rng.choice([1.0 / 64, 0.25, max(b0 / 2, 0.25), b0 + 0.25, b0 + max(t0 / 2, 0.25)])
+        t += round(off * 64) / 64
+        tl.append([t, "edit", "a", {"metadata": {"labels": {"on": "1"}}}])
+        t += b0 + t0
+    else:
+        t += b0 + t0 + rng.choice([1.5, 3.0])
+        tl.append([t, "edit", "a", {"metadata": {"labels": {"on": "1"}}}])
+    if rng.random() < 0.3:
+        t += rng.choice([2.0, 4.0])
+        tl.append([t, "edit", "a", {"spec": {"x": 9}}])
+    return {"runner": RUNNER, "seed": seed, "handlers": handlers, "timeline": tl, "end": t + rng.choice([4.0, 7.0]),
+            "settings": {}, "flavour": "rematch"}
+
+
+def gen_exit_flagged_scenario(rng: Any, seed: int) -> dict:
+    """The operator is asked to stop while a daemon is ALREADY being stopped for another reason (mismatch, deletion mark)
+    and is still in an early stage of it (long backoff, or no timeout: polled): the exit sweep has to take it through the
+    stages like any other daemon — the cycles that were to do it will not come any more."""
+    handlers: list[dict] = []
+    for k in range(rng.choice([1, 2])):
+        opts: dict[str, Any] = {"labels": {"on": "1"}, "cancellation_timeout": rng.choice([0.5, 1.0, 2.0])}
+        opts["cancellation_backoff"] = rng.choice([1.0, 3.0, 6.0])
+        handlers.append({"kind": "daemon", "id": f"d{k}", "opts": opts,
+                         "daemon": {"mode": rng.choice(["cancel", "cancel", "ignore"]), "after": 2.0}})
+    if rng.random() < 0.5:
+        handlers.append({"kind": "daemon", "id": "d9", "opts": {}, "daemon": {"mode": "obey"}})
+    t = 1.0
+    tl: list[list] = [[t, "create", "a", {"spec": {"x": 0}, "metadata": {"labels": {"on": "1"}}}]]
+    t += rng.choice([1.0, 2.0])
+    tl.append([t, "edit", "a", {"metadata": {"labels": {"on": "0"}}}] if rng.random() < 0.6 else [t, "delete", "a"])
+    t += rng.choice([1.0 / 64, 0.25, 0.5, 0.75])
+    tl.append([t, "stop"])
+    tl.append([t + 14.0, "start"])
+    return {"runner": RUNNER, "seed": seed, "handlers": handlers, "timeline": tl, "end": t + 18.0, "settings": {},
+            "flavour": "exit-flagged"}
+
+
 def gen_scenario(rng: Any, seed: int) -> dict:
+    sc = _gen_scenario(rng, seed)
+    # `settings.background.instant_exit_timeout` (no test of kopf sets it): time passes INSIDE stop_daemons / stop_daemon.
+    # The Lean model is about the default (None: see ASSUMPTIONS): these histories are judged by the oracle alone.
+    if rng.random() < 0.08 and not any(h.get("noawait") or h.get("daemon", {}).get("mode") == "retry" for h in sc["handlers"]):
+        sc["settings"] = {**sc.get("settings", {}), "background.instant_exit_timeout": rng.choice([1.0 / 8, 1.0 / 8, 1.0 / 64])}
+        sc["oracle_only"] = True
+    return sc
+
+
+def _gen_scenario(rng: Any, seed: int) -> dict:
     r = rng.random()
     if r < 0.06:
         return gen_exit_depletion_scenario(rng, seed)
     r = (r - 0.06) / 0.94
+    if r < 0.10:
+        return gen_asleep_scenario(rng, seed)
+    if r < 0.18:
+        return gen_rematch_scenario(rng, seed)
+    if r < 0.22:
+        return gen_exit_flagged_scenario(rng, seed)
+    r = (r - 0.22) / 0.78
     if r < 0.2:
         return gen_pause_scenario(rng, seed)
     if r < 0.3:
@@ -851,6 +1051,8 @@ def gen_scenario(rng: Any, seed: int) -> dict:
                             "after": rng.choice([0.5, 2.0, 5.0])}}
             if rng.random() < 0.06:       # never awaits, asks to be retried
                 h["daemon"] = {"mode": "retry", "delay": rng.choice([0.5, 1.0, 1.0 / 64, 2.0, 0])}
+            elif rng.random() < 0.12:
+                opts["initial_delay"] = rng.choice([0.5, 2.0, 4.0])
         else:
             kind = rng.choice(TIMER_CFGS)
             if kind in ("interval", "sharp", "both"):
@@ -907,6 +1109,26 @@ def gen_scenario(rng: Any, seed: int) -> dict:
             tl.append([t + rng.choice([0, 1.0 / 64, 2.0 / 64, 3.0 / 64]), "delete", "b"])
         elif op == "pause":
             tl.append([t, "pause"])
+            if rng.random() < 0.35:      # something happens in the MIDDLE of the pause (no event reaches the operator then)
+                t += rng.choice([0.25, 0.5, 1.5])
+                mid = rng.choice(["label", "spec", "delete", "force", "stop", "kill"])
+                if mid == "label" and alive_a:
+                    lab = rng.choice([v for v in ["1", "0", None] if v != lab])
+                    tl.append([t, "edit", "a", {"metadata": {"labels": {"on": lab}}}])
+                elif mid == "spec" and alive_a:
+                    x += 1
+                    tl.append([t, "edit", "a", {"spec": {"x": x}}])
+                elif mid == "delete" and alive_a:
+                    tl.append([t, "delete", "a"])
+                    alive_a = False
+                elif mid == "force" and alive_a:
+                    tl.append([t, "force_delete", "a"])
+                    alive_a = False
+                elif mid in ("stop", "kill"):
+                    tl.append([t, mid])
+                    t += rng.choice([0.5, 2.0, 10.0])
+                    tl.append([t, "start"])
+                    continue             # the new incarnation is not paused
             t += rng.choice([0.5, 1.5, 3.0, 7.0])
             tl.append([t, "resume"])
         elif op in ("restart", "kill"):
@@ -950,11 +1172,14 @@ def instances(tr: dict) -> dict[int, dict]:
         if k == "spawn":
             inst[e["sid"]] = {"sid": e["sid"], "hid": e["hid"], "uid": e["uid"], "inc": e["inc"], "t_spawn": e["t"],
                               "seq_spawn": e["seq"], "t_start": None, "t_end": None, "seq_end": None, "sets": [],
-                              "cancels": [], "own_exit": None, "end_forever": None, "muted": False}
-        elif k in ("run0", "end", "set", "cancel") and e.get("sid") in inst:
+                              "cancels": [], "own_exit": None, "end_forever": None, "muted": False, "woken_seq": None}
+        elif k in ("run0", "end", "set", "cancel", "woken") and e.get("sid") in inst:
             i = inst[e["sid"]]
             if k == "run0":
                 i["t_start"] = e["t"]
+            elif k == "woken":
+                if i["woken_seq"] is None:
+                    i["woken_seq"], i["t_woken"] = e["seq"], e["t"]
             elif k == "set":
                 i["sets"].append(e)
                 if e["reason"] == ["DONE"] and e["site"] == "_runner":
@@ -1453,7 +1678,8 @@ def oracle(ctx: Ctx, sc: dict, res: dict) -> dict:
         if t_end(i) <= T + DELTA:
             ctx.count("stop_trigger", why + ": ended at once")
             return
-        if reason is not None and flagged_by(i, None, T - 1.0 / 128) is not None and flagged_by(i, reason, T + DELTA) is None:
+        # (… no later than T: at the very instant T the order of the two requests is a matter of scheduling)
+        if reason is not None and flagged_by(i, None, T) is not None and flagged_by(i, reason, T + DELTA) is None:
             ctx.count("stop_trigger", why + ": was already asked to stop for another reason")
             return
         at = flagged_by(i, reason, T + DELTA)
@@ -1565,8 +1791,11 @@ def oracle(ctx: Ctx, sc: dict, res: dict) -> dict:
                 continue
             who = next(e["site"] for e in i["sets"] if reason in e["reason"] and e["t"] == tf
                        and (reason != "RESOURCE_DELETED" or e["site"] == "stop_daemon"))
-            dl_c = tf + period + backoff + tick
-            dl_a = tf + period + backoff + timeout + tick
+            # (a configured `instant_exit_timeout` is documented as neither combined with nor deducted from the other
+            # timeouts: `stop_daemon` waits that long once more after setting the flag)
+            iet = float(sc.get("settings", {}).get("background.instant_exit_timeout") or 0)
+            dl_c = tf + period + backoff + iet + tick
+            dl_a = tf + period + backoff + timeout + iet + tick
             upto = min(w1, iv["until"] if reason == "OPERATOR_PAUSING" else float("inf"))
             if has_timeout and dl_c < upto and t_end(i) > dl_c:
                 if not any(cn["t"] <= dl_c for cn in i["cancels"]) and \
@@ -1625,15 +1854,165 @@ def oracle(ctx: Ctx, sc: dict, res: dict) -> dict:
                       "reason": "RESOURCE_DELETED"}, sid=i["sid"])
             else:
                 ctx.count("escalation", "RESOURCE_DELETED: abandoned in time")
+    # the instances that the daemon killer's exit sweep has seen (it escorts them through the stages before the operator
+    # goes on to cancel whatever is left as "hung" tasks)
+    exit_listed: dict[int, set] = {}
+    for e in tr["ev"]:
+        if e["e"] == "sweep" and e.get("final"):
+            exit_listed.setdefault(e["inc"], set()).update(d["sid"] for d in e["listed"])
     for key, cs in calls_by.items():
         iv = incs.get(key[0])
         for c in cs:
             for tc in c.get("cancels", []):
                 lst = [i for i in by_key.get(key, []) if i["t_spawn"] <= tc <= t_end(i)]
-                explained = any(cn["t"] == tc for i in lst for cn in i["cancels"]) or iv is None or tc >= iv["until"]
+                by_protocol = any(cn["t"] == tc for i in lst for cn in i["cancels"])
+                explained = by_protocol or iv is None or tc >= iv["until"]
                 if not explained:
                     fail(f"daemon {key[2]} of {key[1]} got a cancellation at t={tc} that is not a stage of the stopping protocol",
                          {"site": "daemons", "shape": "cancelled outside the staged protocol"})
+                # O8x: a graceful exit goes through the stages for EVERY daemon the exit sweep has seen, whatever it was flagged
+                # with before: until the framework has given up on it (abandoned), nothing but the protocol cancels it
+                elif not by_protocol and iv is not None and iv["how"] == "stop" and tc >= iv["until"]:
+                    for i in lst:
+                        if i["sid"] not in exit_listed.get(key[0], set()):
+                            continue
+                        if any("DAEMON_ABANDONED" in e["reason"] and e["t"] <= tc for e in i["sets"]):
+                            ctx.count("exit", "left-over daemon cancelled as a hung task after it was abandoned")
+                            continue
+                        fail(f"daemon {key[2]} of {key[1]} (instance {i['sid']}) was running when the operator was asked to stop at "
+                             f"t={iv['until']} (flags so far: {[(e['t'], e['reason']) for e in i['sets']]}): it was cancelled at t={tc} "
+                             f"as a left-over task, neither by a stage of the stopping protocol nor after being abandoned",
+                             {"site": "daemons.daemon_killer", "shape": "running daemon is not taken through the stages by the exit sweep"},
+                             sid=i["sid"])
+    # ---- O11: once asked to stop, the function is not called again -------------------------------------------------------
+    #      (a) no call begins at a later (virtual) time than the instance's stop flag; (b) no call begins after the
+    #      instance's own wrapper has come back from a sleep with the flag set (it KNOWS then). A call that begins in the
+    #      very instant of the flag, by a wrapper that was not sleeping on it, is the unavoidable check-then-call race.
+    by_sid_calls: dict[int, list[dict]] = {}
+    for c in tr["calls"]:
+        if c.get("sid") is not None:
+            by_sid_calls.setdefault(c["sid"], []).append(c)
+    for i in inst.values():
+        first = next((e for e in i["sets"] if any(r in PRIMARY for r in e["reason"])), None)
+        if first is None or hs.get(i["hid"]) is None:
+            continue
+        for c in by_sid_calls.get(i["sid"], []):
+            late = c["t"] > first["t"]
+            knew = i.get("woken_seq") is not None and c["seq"] > i["woken_seq"]
+            if late or knew:
+                fail(f"{i['hid']} of {i['uid']} (instance {i['sid']}) was asked to stop at t={first['t']} ({first['reason']}) and its "
+                     f"function was called again at t={c['t']}" + (" — after its wrapper had woken up on the stop flag" if knew else ""),
+                     {"site": "daemons._timer / daemons._daemon", "shape": "function called after the instance was asked to stop"},
+                     sid=i["sid"], call_t=c["t"])
+                break
+        else:
+            if by_sid_calls.get(i["sid"]):
+                ctx.count("after_flag", "no call after the stop flag")
+    # ---- O12: the stop flag reaches the instance: when none of the user's code is running (the wrapper sleeps: initial delay,
+    #      idle wait, interval, retry delay) the instance ends at once; a function that waits for its `stopped` flag is
+    #      released at once; otherwise the instance ends as soon as the call in flight has ended.
+    for i in inst.values():
+        first = next((e for e in i["sets"] if any(r in PRIMARY for r in e["reason"])), None)
+        h = hs.get(i["hid"])
+        if first is None or h is None or i["muted"]:
+            continue
+        tf = first["t"]
+        if not alive_inc(i["inc"], tf + DELTA_END) or tf + DELTA_END >= end:
+            continue
+        cs = by_sid_calls.get(i["sid"], [])
+        flying = [c for c in cs if c["t"] <= tf and (c["t_end"] is None or c["t_end"] >= tf)]
+        free_at = tf
+        blocked = False
+        for c in flying:
+            if c.get("mode") == "obey":
+                if c["t_end"] is None or c["t_end"] > tf + DELTA_END:
+                    fail(f"daemon {i['hid']} of {i['uid']} (instance {i['sid']}) waits for its `stopped` flag; the flag was set at t={tf} "
+                         f"({first['reason']}) but the function was not released by t={tf + DELTA_END} (it ended at {c['t_end']})",
+                         {"site": "aioenums.FlagSetter", "shape": "the stop flag does not reach the function waiting for it"}, sid=i["sid"])
+                    blocked = True
+                else:
+                    ctx.count("delivery", "waiting function released")
+            if c["t_end"] is None:
+                blocked = True
+            else:
+                free_at = max(free_at, c["t_end"])
+        later = [c for c in cs if c["t"] > tf or (c["t"] == tf and c not in flying)]
+        if blocked or later:
+            continue
+        if not alive_inc(i["inc"], free_at + DELTA_END) or free_at + DELTA_END >= end:
+            continue
+        if t_end(i) > free_at + DELTA_END:
+            fail(f"{i['hid']} of {i['uid']} (instance {i['sid']}) was asked to stop at t={tf} ({first['reason']}); none of the user's code "
+                 f"was running from t={free_at} on, but the instance had not ended by t={free_at + DELTA_END} (ended: {i['t_end']}): "
+                 f"its wrapper does not obey the stop flag",
+                 {"site": "daemons._timer / daemons._daemon", "shape": "idle instance does not end on the stop flag"}, sid=i["sid"])
+        else:
+            ctx.count("delivery", "idle instance ended at once" if not flying else "instance ended with its call in flight")
+    # ---- O14: after a filter mismatch the stages are gone through as well (cycles -> delays -> touch -> next cycle) ------------
+    #      The flag cannot be taken back: an instance that was asked to stop is taken to its end also when the object matches
+    #      again meanwhile (and is replaced then: O15).
+    for i in inst.values():
+        h, iv, ob = hs.get(i["hid"]), incs.get(i["inc"]), objs.get(i["uid"])
+        if h is None or iv is None or ob is None or h["kind"] != "daemon" or h.get("opts", {}).get("cancellation_timeout") is None:
+            continue
+        o = h["opts"]
+        backoff, timeout = float(o.get("cancellation_backoff") or 0), float(o.get("cancellation_timeout") or 0)
+        sets = [e for e in i["sets"] if e["reason"] != ["DONE"]]
+        td = next((e["t"] for e in sets if "FILTERS_MISMATCH" in e["reason"] and e["site"] == "stop_daemons"), None)
+        if td is None:
+            continue
+        when = sets[0]["t"]
+        for what, dl, sat in (
+                ("cancelled", max(td, when + backoff) + DELTA,
+                 lambda d: any(cn["t"] <= d for cn in i["cancels"]) or any("DAEMON_ABANDONED" in e["reason"] and e["t"] <= d for e in sets)),
+                ("abandoned", max(td, when + backoff + timeout) + DELTA,
+                 lambda d: any("DAEMON_ABANDONED" in e["reason"] and e["t"] <= d for e in sets))):
+            if not listening(i["inc"], td, dl) or t_end(i) <= dl or dl >= end:
+                continue
+            if (ob["marked"] is not None and ob["marked"] <= dl) or (ob["gone"] is not None and ob["gone"] <= dl):
+                continue                      # the deletion takes over: O9 / O8
+            if sat(dl):
+                ctx.count("escalation", f"FILTERS_MISMATCH: {what} in time")
+                continue
+            rematched = any(should_run(ob, h, td + (dl - td) * k / 64) for k in range(1, 65))
+            if rematched:
+                fail(f"{i['hid']} (instance {i['sid']}) was asked to stop at t={td} (filter mismatch) and kept running; the object matched "
+                     f"again before the instance had ended: it was not {what} by t={dl} (backoff={backoff}, timeout={timeout}), and it "
+                     f"keeps its place in running_daemons, so that nothing is started for the matching object either",
+                     dict(F14_SIG), sid=i["sid"])
+            else:
+                fail(f"{i['hid']} (instance {i['sid']}) was asked to stop at t={td} (filter mismatch) and kept running, but was not "
+                     f"{what} by t={dl} (backoff={backoff}, timeout={timeout})",
+                     {"site": "daemons.match_daemons", "shape": f"flagged daemon is not {what} in time", "reason": "FILTERS_MISMATCH"},
+                     sid=i["sid"])
+            break
+    # ---- O15: a start that had to wait for the previous (stopping) instance to end is made up for once it has ended -------------
+    for (inc, uid, hid), lst in by_key.items():
+        h, iv, ob = hs.get(hid), incs.get(inc), objs.get(uid)
+        if h is None or iv is None or ob is None:
+            continue
+        for k, a in enumerate(lst):
+            te = a["t_end"]
+            if te is None or a["own_exit"] or a["muted"] or not a["sets"]:
+                continue
+            first = next((e for e in a["sets"] if any(r in PRIMARY for r in e["reason"])), None)
+            if first is None or not (set(first["reason"]) & {"FILTERS_MISMATCH", "OPERATOR_PAUSING"}):
+                continue
+            if te + DELTA >= end or not listening(inc, te, te + DELTA) or not all(should_run(ob, h, te + DELTA * j / 16) for j in range(17)):
+                continue
+            # the object matched (and the operator listened) already before the instance ended: the start was due then
+            due_before = any(should_run(ob, h, x) and listening(inc, x, x) for x in [te - 1.0 / 128])
+            if not due_before:
+                continue                     # a rising edge at or after the end: O2 judges it
+            if any(c.get("outcome") == "perm" and c["t_end"] is not None and c["t_end"] <= te + DELTA for c in calls_by.get((inc, uid, hid), [])):
+                continue
+            if any(te <= b["t_spawn"] <= te + DELTA for b in lst[k + 1:]):
+                ctx.count("start_trigger", "started after the stopping instance had ended")
+            else:
+                fail(f"{hid} of {uid}: the instance created at t={a['t_spawn']} was asked to stop at t={first['t']} ({first['reason']}) and "
+                     f"ended at t={te}; the object matches and the operator listens since before that, but no new instance was started "
+                     f"within {DELTA}s of the end (next: {[b['t_spawn'] for b in lst[k + 1:]][:1]})",
+                     dict(F15_SIG), t=te, uid=uid, hid=hid)
     return info
 
 
@@ -1846,8 +2225,48 @@ def extract(ctx: Ctx) -> None:
     out += ("/-- the killer's `finally:` starts with `memories.mark_operator_exiting()` (all memories, and — inventory — those created later);\n"
             "    `spawn_daemons` returns at once for a marked memory -/\n"
             f"def marksExiting : Bool := {'true' if marks_exiting(ctx.repo, tree) else 'false'}\n\n")
+    out += ("/-- every `aiotime.sleep(...)` of `_timer` and `_daemon` has the instance's stopper as its wake-up event\n"
+            "    (`wakeup=stopper.async_event` / `wakeup=cause.stopper.async_event`): what the model's `sleepSuspends` presumes -/\n"
+            f"def sleepsWakeOnStop : Bool := {'true' if sleeps_wake_on_stop(tree) else 'false'}\n\n")
+    out += ("/-- `_timer`: the wait for the object to become idle is followed by `if stopper.is_set(): continue` (the model's\n"
+            "    program point `idleDone`): a timer woken from that wait by its stopper does not call the function -/\n"
+            f"def timerRechecksStopAfterIdle : Bool := {'true' if timer_rechecks_stop_after_idle(tree) else 'false'}\n\n")
     out += "end Kopf.C09.Extracted\n"
     leanio.write_generated("Kopf/Extracted/C09.lean", out)
+
+
+def sleeps_wake_on_stop(tree: ast.AST) -> bool:
+    """Every call of `aiotime.sleep` in `_timer` / `_daemon` passes the stopper's event as `wakeup=`; and there is no
+    other way of sleeping in them than that and the zero-time yield `asyncio.sleep(0)`."""
+    ok = True
+    n = 0
+    for name in ("_timer", "_daemon"):
+        fn = pyextract.find_def(tree, name)
+        for node in ast.walk(fn):
+            if not isinstance(node, ast.Call):
+                continue
+            f = pyextract.norm(node.func)
+            if f == "aiotime.sleep":
+                n += 1
+                kw = {k.arg: pyextract.norm(k.value) for k in node.keywords}
+                ok = ok and kw.get("wakeup") in ("stopper.async_event", "cause.stopper.async_event")
+            elif f == "asyncio.sleep":
+                ok = ok and len(node.args) == 1 and pyextract.norm(node.args[0]) == "0"
+            elif f.endswith(".sleep") or f in ("asyncio.wait", "asyncio.wait_for", "aiotasks.wait"):
+                ok = False
+    return ok and n > 0
+
+
+def timer_rechecks_stop_after_idle(tree: ast.AST) -> bool:
+    fn = pyextract.find_def(tree, "_timer")
+    blocks = [n for n in ast.walk(fn) if isinstance(n, ast.If) and pyextract.norm(n.test) == "handler.idle is not None" and not n.orelse]
+    for b in blocks:
+        if len(b.body) == 2 and isinstance(b.body[0], ast.While) and isinstance(b.body[1], ast.If):
+            w, c = b.body
+            if pyextract.norm(w.test).startswith("not stopper.is_set() and ") and pyextract.norm(c.test) == "stopper.is_set()" \
+                    and not c.orelse and [pyextract.norm(x) for x in c.body] == ["continue"]:
+                return True
+    return False
 
 
 def _spawn_guard(tree: ast.AST, attr: str) -> bool:
@@ -2057,7 +2476,11 @@ def _run_batch(ctx: Ctx, scenarios: list[dict], names: list[str | None], oracle_
             ctx.count("result", "completed")
             ctx.extra["max_start_latency_s"] = max(ctx.extra.get("max_start_latency_s", 0.0), info["max_start_latency"])
             ctx.extra["max_stop_latency_s"] = max(ctx.extra.get("max_stop_latency_s", 0.0), info["max_stop_latency"])
-            if oracle_only:
+            if sc.get("flavour"):
+                ctx.count("flavour", sc["flavour"])
+            if sc.get("oracle_only"):
+                ctx.count("result", "oracle only (instant_exit_timeout set: outside the model's assumptions)")
+            if oracle_only or sc.get("oracle_only"):
                 continue
             tr = res["trace"]
             rq, im, wh, st = tie_requests(sc, tr)
